@@ -1,6 +1,7 @@
 package main
 
 import (
+	"go/types"
 	"flag"
 	"fmt"
 	"os"
@@ -113,6 +114,15 @@ func cmdSweep(args []string) {
 		}
 	}
 	re := regexp.MustCompile(*match)
+	if os.Getenv("GOVERIF_PRINTRET") != "" {
+		e.onReturn = func(fn *ssa.Function, r pathResult) {
+			if len(r.ret) == 0 || len(r.ret[0]) != 2 {
+				return
+			}
+			txt := e.unbox(r.st, types.Typ[types.String], r.ret[0][1])
+			fmt.Printf("RET %s: %s\n", e.shortFunc(fn), txt[0])
+		}
+	}
 	var reports []FuncReport
 	for _, fn := range e.allRepoFunctions() {
 		if !re.MatchString(fn.String()) {
